@@ -36,7 +36,19 @@ func (fr *Frame) dryRecord(li *loopInfo, es *State) {
 	}
 }
 
-func (fr *Frame) loopName(li *loopInfo) string { return fmt.Sprintf("loop%d", li.ordinal) }
+func (fr *Frame) loopName(li *loopInfo) string {
+	if fr.parent != nil {
+		return fmt.Sprintf("%s.loop%d", fr.fn.Name(), li.ordinal)
+	}
+	return fmt.Sprintf("loop%d", li.ordinal)
+}
+
+func clauseLabel(cl *Clause) string {
+	if cl.Label != "" {
+		return cl.Label
+	}
+	return "h" + scriptHash(cl.Text)[:6]
+}
 
 func (fr *Frame) cutLoop(li *loopInfo, st *State, preds []*ssa.BasicBlock, pstates []*State) error {
 	vc := fr.vc
@@ -70,7 +82,7 @@ func (fr *Frame) cutLoop(li *loopInfo, st *State, preds []*ssa.BasicBlock, pstat
 			if err != nil {
 				return fmt.Errorf("%s:%d: %v", inv.File, inv.Line, err)
 			}
-			vc.oblige(st, "inv_entry", fr.loopName(li)+":"+fr.contract.clauseName(inv), t, li.pos, inv.Text)
+			vc.oblige(st, "inv_entry", fr.loopName(li)+":"+clauseLabel(inv), t, li.pos, inv.Text)
 		}
 	}
 	// 2. dry run to find what the body writes
@@ -102,13 +114,29 @@ func (fr *Frame) cutLoop(li *loopInfo, st *State, preds []*ssa.BasicBlock, pstat
 				keys = append(keys, k)
 			}
 			sort.Strings(keys)
+			li.modKeys = keys
+			// the frame holds on loop entry ...
+			fr.loopFrameCheck(st, keys, "loop_frame_entry", fr.loopName(li), li.pos)
 			for _, k := range keys {
+				if k == allocKey {
+					old := vc.get(st, allocKey, allocSort)
+					neu := vc.fresh(allocKey, allocSort)
+					vc.nfresh++
+					q := sym(fmt.Sprintf("al!q%d", vc.nfresh))
+					vc.emit("(assert (forall ((" + q + " Int)) (=> (select " + old + " " + q + ") (select " + neu + " " + q + "))))")
+					st.heap[k] = neu
+					continue
+				}
 				vc.havocFam(st, k)
 			}
+			// ... and is assumed for the arbitrary iteration
+			fr.loopFrameAssume(st, keys)
 		}
 	}
 	for _, phi := range phis {
-		fr.vals[phi] = vc.freshValue(fr.vname(phi), phi.Type(), nil)
+		v := vc.freshValue(fr.vname(phi), phi.Type(), nil)
+		vc.assume(st, vc.allocFacts(st, v, phi.Type()))
+		fr.vals[phi] = v
 	}
 	// 4. assume invariants
 	if li.spec != nil {
@@ -139,6 +167,7 @@ func (fr *Frame) backEdge(li *loopInfo, from *ssa.BasicBlock, es *State) {
 	vc := fr.vc
 	b := li.header
 	if li.spec == nil {
+		fr.loopFrameCheck(es, li.modKeys, "loop_frame_keep", fr.loopName(li), li.pos)
 		return
 	}
 	idx := -1
@@ -166,13 +195,14 @@ func (fr *Frame) backEdge(li *loopInfo, from *ssa.BasicBlock, es *State) {
 	for phi, v := range next {
 		fr.vals[phi] = v
 	}
+	fr.loopFrameCheck(es, li.modKeys, "loop_frame_keep", fr.loopName(li), li.pos)
 	for _, inv := range li.spec.Invariants {
 		t, err := fr.evalClause(inv, es, fr.entry, nil)
 		if err != nil {
 			vc.errs = append(vc.errs, fmt.Sprintf("%s:%d: %v", inv.File, inv.Line, err))
 			continue
 		}
-		vc.oblige(es, "inv_keep", fr.loopName(li)+":"+fr.contract.clauseName(inv), t, li.pos, inv.Text)
+		vc.oblige(es, "inv_keep", fr.loopName(li)+":"+clauseLabel(inv), t, li.pos, inv.Text)
 	}
 	if li.spec.Decreases != nil {
 		v, _, err := fr.evalExprText(li.spec.Decreases.Text, es, fr.entry, nil)
